@@ -119,7 +119,7 @@ func genOps(b bias, guard bool) []mach.Op {
 	case r < b.fail*0.8:
 		ops = append(ops, mach.Op{Name: "emitbad"})
 	case r < b.fail*0.8+b.exotic:
-		ops = append(ops, mach.Op{Name: pickS([]string{"retgetter", "retcyclic", "throwobj", "retcyclicobj"})})
+		ops = append(ops, mach.Op{Name: pickS([]string{"retgetter", "retcyclic", "throwobj", "retcyclicobj", "retnan"})})
 	case r < b.fail*0.8+b.exotic+b.loop:
 		ops = append(ops, mach.Op{Name: "loop"})
 	case r < b.fail*0.8+b.exotic+b.loop+0.12:
